@@ -462,6 +462,42 @@ func gateNumOut(w *World, gate *Func) gateTable {
 			}
 		}
 		if len(t.numOut[cv]) == 0 {
+			// not a case of a switch over NumOut(): ask the entailment engine which count holds at the return
+			// (if chains, guard clauses, a local holding NumOut())
+			e := w.ent(gate)
+			x := w.expander(gate)
+			var cands []ast.Expr
+			walkNoLit(gate.Body, func(q ast.Node) bool {
+				switch y := q.(type) {
+				case *ast.CallExpr:
+					if sel, ok := unparen(y.Fun).(*ast.SelectorExpr); ok && sel.Sel.Name == "NumOut" && len(y.Args) == 0 {
+						cands = append(cands, y)
+					}
+				case *ast.Ident:
+					if v, ok := info.Uses[y].(*types.Var); ok && !v.IsField() {
+						if rhs, idx, _, ok := x.def(v); ok && rhs != nil && idx < 0 {
+							if c2, ok := unparen(rhs).(*ast.CallExpr); ok {
+								if sel, ok := unparen(c2.Fun).(*ast.SelectorExpr); ok && sel.Sel.Name == "NumOut" {
+									cands = append(cands, y)
+								}
+							}
+						}
+					}
+				}
+				return true
+			})
+			at := site{pos: ret.Pos(), anc: ret}
+			kc := keyCtx{e: e, s: &at}
+			for k := int64(0); k <= 4 && len(t.numOut[cv]) == 0; k++ {
+				for _, cand := range cands {
+					if ok, _ := e.Prove(ret, e.intEq(kc, cand, k)); ok {
+						t.numOut[cv] = append(t.numOut[cv], k)
+						break
+					}
+				}
+			}
+		}
+		if len(t.numOut[cv]) == 0 {
 			t.numOut[cv] = append(t.numOut[cv], -1)
 		}
 		return true
@@ -1112,6 +1148,51 @@ func c16Accessors(c *Ctx, ctors []*Func) {
 				}
 				return true
 			})
+			// the call sits in a case of `switch recv.Kind()` all of whose kinds satisfy the accessor's requirement
+			if !proved {
+				okKinds := kindsSatisfying(need)
+				child := ast.Node(call)
+				for pnode := w.parent[call]; pnode != nil && pnode != f.Node() && !proved; child, pnode = pnode, w.parent[pnode] {
+					cc, ok := pnode.(*ast.CaseClause)
+					if !ok || len(cc.List) == 0 {
+						continue
+					}
+					inBody := false
+					for _, st := range cc.Body {
+						if ast.Node(st) == child {
+							inBody = true
+						}
+					}
+					sw, ok2 := w.parent[w.parent[cc]].(*ast.SwitchStmt)
+					if !inBody || !ok2 || sw.Tag == nil || sw.Init != nil {
+						continue
+					}
+					tc, ok := unparen(sw.Tag).(*ast.CallExpr)
+					if !ok || len(tc.Args) != 0 {
+						continue
+					}
+					ts, ok := unparen(tc.Fun).(*ast.SelectorExpr)
+					if !ok || ts.Sel.Name != "Kind" || exprStr(ts.X) != recv {
+						continue
+					}
+					all := okKinds != nil
+					var names []string
+					for _, cx := range cc.List {
+						k := reflectKindName(info, cx)
+						names = append(names, k)
+						if k == "" || !okKinds[k] {
+							all = false
+						}
+					}
+					// the receiver is a variable that is not reassigned (its kind at the call is the kind switched on)
+					rid := identOf(sel.X)
+					if all && rid != nil {
+						if obj, ok := info.Uses[rid].(*types.Var); ok && len(e.assigns[obj]) <= 1 && !e.addrOf[obj] {
+							proved, how = true, "inside case "+strings.Join(names, ", ")+" of switch "+recv+".Kind(): every listed kind satisfies "+need
+						}
+					}
+				}
+			}
 			// IsNil on a call result under the channel-returning signature
 			if !proved && need == "nillable" {
 				for _, ctor := range ctors {
@@ -1169,4 +1250,40 @@ func isOutputGate(g *Func) bool {
 	}
 	b, ok := n.Underlying().(*types.Basic)
 	return ok && b.Info()&types.IsInteger != 0
+}
+
+// kindsSatisfying: the reflect kinds for which an accessor's requirement holds (nil: not expressible by kind).
+func kindsSatisfying(need string) map[string]bool {
+	set := func(ks ...string) map[string]bool {
+		m := map[string]bool{}
+		for _, k := range ks {
+			m[k] = true
+		}
+		return m
+	}
+	switch need {
+	case "CanFloat":
+		return set("Float32", "Float64")
+	case "CanInt":
+		return set("Int", "Int8", "Int16", "Int32", "Int64")
+	case "CanUint":
+		return set("Uint", "Uint8", "Uint16", "Uint32", "Uint64", "Uintptr")
+	case "CanComplex":
+		return set("Complex64", "Complex128")
+	case "Kind==Bool":
+		return set("Bool")
+	case "nillable":
+		return set("Chan", "Func", "Interface", "Map", "Pointer", "Ptr", "Slice", "UnsafePointer")
+	case "Kind==Interface|Pointer":
+		return set("Interface", "Pointer", "Ptr")
+	case "Kind==Slice":
+		return set("Slice")
+	case "Kind==Map":
+		return set("Map")
+	case "Kind==Struct":
+		return set("Struct")
+	case "Kind==sized":
+		return set("Array", "Chan", "Map", "Slice", "String")
+	}
+	return nil
 }
